@@ -21,7 +21,8 @@ import traceback
 from concurrent.futures import ThreadPoolExecutor
 
 sys.path.insert(0, os.path.dirname(os.path.abspath(__file__)))
-sys.path.insert(0, '/repo')
+REPO = os.environ.get('VERIF_REPO', '/repo')
+sys.path.insert(0, REPO)
 sys.setrecursionlimit(20000)
 
 import vlib
@@ -64,7 +65,7 @@ def run(prop_id, tier, seed, replay=None):
         # the library blew up inside an observation the driver does not guard (e.g. hashing a live cell):
         # that is the library misbehaving, not the machinery -- but only if the innermost frames are library code
         tb = traceback.extract_tb(e.__traceback__)
-        if any('/repo/pytoniq_core' in f.filename for f in tb[-4:]) and not isinstance(e, MachineryError):
+        if any(REPO + '/pytoniq_core' in f.filename for f in tb[-4:]) and not isinstance(e, MachineryError):
             os.makedirs(vlib.REPLAYS, exist_ok=True)
             path = os.path.join(vlib.REPLAYS, f'{prop_id}-{tier}-{seed}.json')
             json.dump({'property': prop_id, 'tier': tier, 'seed': seed, 'ids': [],
